@@ -129,13 +129,24 @@ CHECKS.append(
               "the reduction of the laws to component orders, not the laws on values.",
          note="Trusted: std's str/char comparison and hashing; rustc item facts (derive markers, discriminants) and MIR.",
          technique="static: trait-impl enumeration + delegation/forwarding rules + per-kind component tables over MIR"))
+CHECKS.append(
+    dict(id="C01", level="other", engine="E1+E3",
+         text="Index/scan consistency of the four generic in-memory stores by a role-propagation abstract interpretation of their "
+              "MIR (roles g/s/p/o on terms, indexes, matchers, arrays, iterators, closures): same key permutation on insert and "
+              "remove for every ordered set, guarded secondary writes, returned flag; every range scan over the set whose key order "
+              "starts with the fixed roles with covering bounds; every non-fixed role filtered by its own matcher on its own "
+              "position; results re-ordered to (g,[s,p,o]); unknown constants touch no set; matching-iterator caches; constant() "
+              "contract of all matcher impls; bulk-operation counters. Decides these structural necessary conditions for all "
+              "pattern shapes and index widths, not BTreeSet/Term::eq themselves nor result equality across implementations.",
+         note="Trusted: rustc MIR; the role-preserving callee list and iterator summaries in rules/roles.py; BTreeSet/HashMap.",
+         technique="static: abstract interpretation (role propagation) over MIR + dominator rules"))
 NOT_APPLICABLE = [
     dict(property_id="C17", reason="relativise/resolve inverse is an equation between runtime-computed strings "
          "(byte-offset arithmetic); no structural clause that is a genuine necessary condition without freezing the "
          "code; static analysis in reach cannot decide it"),
 ]
 # properties not yet wired in this commit are listed as not applicable *for now* by gen (see below)
-PENDING = ["C01", "C05", "C06", "C07", "C14",
+PENDING = ["C05", "C06", "C07", "C14",
            ]
 for p in PENDING:
     if p not in [c["id"] for c in CHECKS]:
